@@ -47,6 +47,9 @@ var c14Groups = []c14Group{
 	{"big", []string{"141.219.0.0/16", "35.8.0.0/16"}},
 	{"mixed", []string{"10.9.0.0/30", "fd00::/126", "10.9.1.0/32"}},
 	// prefix lengths that are not a multiple of 8, with network bits set in the octet the mask splits
+	// an IPv4-mapped IPv6 CIDR, alone and next to genuine IPv6 / IPv4 subnets
+	{"mapped", []string{"::ffff:10.0.0.0/104"}},
+	{"mapped+", []string{"::ffff:10.8.0.0/112", "2001:db8:5::/64", "10.7.0.0/24"}},
 	{"unaligned", []string{"192.0.2.16/28", "10.1.16.0/20", "203.0.113.252/30", "2001:db8::ff10/124", "2001:db8:0:f000::/52"}},
 }
 
